@@ -83,3 +83,13 @@ def register(claim):
           "Splitting a string at '/' is done by the driver, not proved. Once-only inclusion depends on realpath()/chdir and is checked on layouts only. "
           "c17_std_denotes assumes no symbolic links (textual '..' removal).",
           "Lean 4 proof (standardize idempotent and denotation-preserving) + differential correspondence on exhaustive small paths and generated layouts", "DESIGN.md §5 C17")
+    claim("C18",
+          "Lean 4 model in exact integer arithmetic of binary64, of correctly rounded decimal->binary conversion (rneDec) and of Grisu2 exactly as "
+          "pdtoa.cxx has it (DiyFp, boundaries, cached power selection incl. its double arithmetic, DigitGen, GrisuRound, Prettify). Theorems decided "
+          "by the kernel on facts re-extracted every run: all 87 cached powers are the correctly rounded 64-bit significands of 10^(-348+8i) "
+          "(c18_cached_powers), the exponent writer is exact for every |K|<1000 (c18_write_exponent). The model is bit-for-bit equal to the real "
+          "pdtoa on every double compared; round trip and parser are decided per run against the exact rounding model (and glibc), also under a "
+          "','-decimal-point locale; literals are followed end to end through interrogate.",
+          "Partial: Loitsch's DigitGen invariant (hence pdtoa round trip for ALL doubles) and Prettify's layout branches are not theorems; pstrtod "
+          "delegates the conversion to the C library's strtod (trusted; cross-checked against the Lean rounding model).",
+          "Lean 4 exact-arithmetic model + kernel-decided table facts + differential correspondence against exact rounding", "DESIGN.md §5 C18")
